@@ -28,8 +28,8 @@ from typing import Any
 
 from .._exceptions import EngineError
 from .._marker_relation import MarkerRelation
-from .._operation_relations import BinaryOperationRelation
-from .._operations import Chain, Deduplication, Projection, Slice, Sort
+from .._operation_relations import BinaryOperationRelation, UnaryOperationRelation
+from .._operations import Calculation, Chain, Deduplication, Projection, Slice, Sort
 from .._relation import Relation
 from .._unary_operation import UnaryOperation
 
@@ -204,11 +204,22 @@ class Select(MarkerRelation):
         select : `Select`
             A relation tree terminated by a new `Select`.
         """
-        target = skip_to
         if sort is None:
             sort = Sort()
         if slice is None:
             slice = Slice()
+        if projection is not None and not sort.terms:
+            # Applying the Projection below will simplify away any
+            # Calculations whose columns it drops; skip those here too, so
+            # skip_to stays upstream of target.
+            while True:
+                match skip_to:
+                    case UnaryOperationRelation(operation=Calculation(tag=tag), target=calculation_target):
+                        if tag not in projection.columns:
+                            skip_to = calculation_target
+                            continue
+                break
+        target = skip_to
         if sort.terms:
             # In the relation tree, we need to apply the Sort before the
             # Projection in case a SortTerm depends on a column that the
